@@ -118,8 +118,7 @@ func build(cs *Case, tag string) *rig {
 	} else {
 		r.card = &doubles.CardBackend{Principal: r.principal, HomeSet: r.hs}
 	}
-	for i, c := range l.Colls {
-		base := joinNames(pp, l.User, l.HS, c.Name)
+	addColl := func(i int, base string, objs []Name) {
 		cp := withSlash(base, l.CSlash)
 		r.colls = append(r.colls, cp)
 		addOwn(cp)
@@ -131,7 +130,7 @@ func build(cs *Case, tag string) *rig {
 			r.card.Books = append(r.card.Books, carddav.AddressBook{Path: cp, Name: name, Description: desc})
 		}
 		r.objs[cp] = nil
-		for j, o := range c.Objs {
+		for j, o := range objs {
 			op := joinNames(base, o)
 			uid := fmt.Sprintf("MRK%suid-%d-%d", tag, i, j)
 			r.markers = append(r.markers, uid)
@@ -143,6 +142,13 @@ func build(cs *Case, tag string) *rig {
 				r.card.Objects = append(r.card.Objects, carddav.AddressObject{Path: op, ETag: "e" + uid, ContentLength: 100, Card: cardData(uid)})
 			}
 		}
+	}
+	for i, c := range l.Colls {
+		addColl(i, joinNames(pp, l.User, l.HS, c.Name), c.Objs)
+	}
+	// Collections of the user's listing that live outside the home set.
+	for i, sh := range l.Shared {
+		addColl(len(l.Colls)+i, cs.sharedBase(&sh), sh.Objs)
 	}
 	if r.cal != nil {
 		r.h = &caldav.Handler{Backend: r.cal, Prefix: cs.handlerPrefix()}
@@ -170,10 +176,34 @@ func (r *rig) calls() []gcall {
 	return out
 }
 
+// sharedBase is the path (without trailing slash) of a collection outside
+// the home set.
+func (cs *Case) sharedBase(sh *Shared) string {
+	l := &cs.Layout
+	pp := cs.prefixPath()
+	switch sh.Where {
+	case "other-user":
+		return joinNames(pp, l.OtherUser, l.HS, sh.Name)
+	case "sibling":
+		return joinNames(pp, l.User, l.OtherHS, sh.Name)
+	}
+	return joinNames(pp, l.OtherUser, l.OtherHS, sh.Name)
+}
+
 // stored returns the backend's spelling of the resource the case addresses
 // ("" when the case addresses no own resource).
 func (r *rig) stored() string {
 	cs := r.cs
+	if cs.Target == "shared" {
+		sc := r.colls[len(cs.Layout.Colls)]
+		switch cs.Level {
+		case 3:
+			return sc
+		case 4:
+			return r.objs[sc][0]
+		}
+		return ""
+	}
 	if cs.Target != "own" {
 		return ""
 	}
@@ -209,6 +239,10 @@ func (r *rig) reqPath() string {
 		p = joinNames(pp, l.OtherUser, l.HS)
 	case cs.Level == 2:
 		p = joinNames(pp, l.User, l.OtherHS)
+	case cs.Level == 3 && cs.Target == "shared":
+		p = cs.sharedBase(&l.Shared[0])
+	case cs.Level == 4 && cs.Target == "shared":
+		p = joinNames(cs.sharedBase(&l.Shared[0]), l.Shared[0].Objs[0])
 	case cs.Level == 3 && cs.Target == "own":
 		p = joinNames(pp, l.User, l.HS, l.Colls[0].Name)
 	case cs.Level == 3:
@@ -223,10 +257,102 @@ func (r *rig) reqPath() string {
 			p = joinNames(p, l.Deeper)
 		}
 	}
+	if cs.Odd != "" {
+		return oddSpelling(p, cs.Odd, cs.OddAt, l.Deeper, cs.Slash)
+	}
 	if cs.Slash || p == "" {
 		p += "/"
 	}
 	return p
+}
+
+var oddKinds = []string{"dslash", "dot", "updown"}
+
+// oddSpelling spells the canonical path p (no trailing slash; "" = the empty
+// prefix's root) with one redundant piece in front of segment number at
+// (at == number of segments: after the last one): an empty segment, a "."
+// segment or "<filler>/..". An empty segment after the last one only shows
+// together with the trailing slash, which is then forced.
+func oddSpelling(p, kind string, at int, filler Name, slash bool) string {
+	var segs []string
+	if p != "" {
+		segs = strings.Split(p[1:], "/")
+	}
+	if at < 0 {
+		at = 0
+	}
+	if at > len(segs) {
+		at = len(segs)
+	}
+	piece := "/"
+	switch kind {
+	case "dot":
+		piece = "/."
+	case "updown":
+		piece = "/" + string(filler) + "/.."
+	}
+	var sb strings.Builder
+	for i, s := range segs {
+		if i == at {
+			sb.WriteString(piece)
+		}
+		sb.WriteByte('/')
+		sb.WriteString(s)
+	}
+	if at == len(segs) {
+		sb.WriteString(piece)
+		if kind == "dslash" {
+			slash = true
+		}
+	}
+	if slash {
+		sb.WriteByte('/')
+	}
+	return sb.String()
+}
+
+// cleanLevel is one reading of "depth below the prefix" for any spelling of a
+// path: empty and "." segments do not count, ".." takes the segment before it
+// away (RFC 3986 5.2.4 plus merging of slashes), and what remains has to
+// start with the prefix segments. -1: not below the prefix.
+func cleanLevel(p string, prefix []Name) int {
+	var st []string
+	for _, s := range strings.Split(p, "/") {
+		switch s {
+		case "", ".":
+		case "..":
+			if len(st) > 0 {
+				st = st[:len(st)-1]
+			}
+		default:
+			st = append(st, s)
+		}
+	}
+	if len(st) < len(prefix) {
+		return -1
+	}
+	for i, n := range prefix {
+		if st[i] != string(n) {
+			return -1
+		}
+	}
+	return len(st) - len(prefix)
+}
+
+// rawLevel is the other reading: the path is taken literally. It has to
+// start with the prefix as a string, and every "/"-separated piece after it
+// (empty, "." and ".." ones too) is a segment; one trailing slash is the
+// trailing-slash spelling. -1: not below the prefix.
+func rawLevel(p, prefixPath string) int {
+	if !strings.HasPrefix(p, prefixPath) {
+		return -1
+	}
+	rest := p[len(prefixPath):]
+	if rest != "" && rest[0] != '/' {
+		return -1
+	}
+	rest = strings.TrimSuffix(rest, "/")
+	return strings.Count(rest, "/")
 }
 
 // spell writes the path p as a request target in one of several equivalent
